@@ -355,6 +355,50 @@ theorem delayVolume_tick_time (g : Gen σ α) (m : SimModel α) (times : List α
   cases decide (pr.proposed < s.nextTick ∧ pr.proposed < s.q.next) <;> cases decide (s.nextTick < s.q.next) <;> simp
   all_goals split_ifs <;> simp
 
+/-! ### Ties between the volume tick and the queue: the recorded finding, as a theorem
+
+In the delay + volume loop a volume tick and a queue time that coincide are not taken together: the queue step comes first
+(`elif next_vol_time < next_queued_reaction_time` is strict) and is not a tick; the division test runs only in tick steps.
+At an interior grid time the tick follows in the next iteration; when the coinciding time is the last requested time the
+loop ends once that row is written, so the division the volume model would report there is never asked for (known finding
+`division/last-grid-time/delay+volume`). -/
+
+/-- on a tie, with no reaction proposed earlier, the step is the queue's: not a tick, the tick stays pending. -/
+theorem dv_tie_is_queue_step (g : Gen σ α) (m : SimModel α) (times : List α) (s : LoopState σ α)
+    (htie : s.nextTick = s.q.next) (hlate : ¬ (dvPropose g m times s).proposed < s.nextTick) :
+    (dvDecide g m times s).stepType = 2 ∧ (dvDecide g m times s).rstep = false
+      ∧ (dvDecide g m times s).tNew = s.q.next ∧ (dvDecide g m times s).nextTick = s.nextTick := by
+  unfold dvDecide
+  simp only
+  generalize dvPropose g m times s = pr at hlate ⊢
+  have h1 : decide (pr.proposed < s.nextTick ∧ pr.proposed < s.q.next) = false := by
+    simp only [decide_eq_false_iff_not, not_and]
+    intro h; exact absurd h hlate
+  have h2 : decide (s.nextTick < s.q.next) = false := by
+    simp [htie]
+  simp [h1, h2]
+
+/-- a queue step never asks the volume model whether the cell divides. -/
+theorem dv_queue_step_no_division_test (g : Gen σ α) (m : SimModel α) (vm : VolModel α) (times : List α) (s : LoopState σ α)
+    (d : DVDecision σ α) (h2 : d.stepType = 2) :
+    (dvApply g m vm times s d).divided = s.divided ∧ (dvApply g m vm times s d).stop = s.stop := by
+  unfold dvApply
+  simp [h2]
+
+/-- **the finding**: if tick and queue time coincide at the last requested time and nothing fires before, that iteration
+writes the last row(s) without a division test, and the loop is over — whatever the volume model would have reported. -/
+theorem dv_tie_at_last_time_ends_undivided (g : Gen σ α) (m : SimModel α) (vm : VolModel α) (times : List α)
+    (s : LoopState σ α) (fuel : Nat)
+    (htie : s.nextTick = s.q.next) (hlate : ¬ (dvPropose g m times s).proposed < s.nextTick)
+    (hdone : times.length ≤ (delayVolumeIter g m vm times s).idx) :
+    runLoop (delayVolumeIter g m vm times) times.length fuel (delayVolumeIter g m vm times s)
+      = some (delayVolumeIter g m vm times s)
+    ∧ (delayVolumeIter g m vm times s).divided = s.divided := by
+  constructor
+  · cases fuel <;> (unfold runLoop; simp [Nat.not_lt.mpr hdone])
+  · unfold delayVolumeIter
+    exact (dv_queue_step_no_division_test g m vm times s _ (dv_tie_is_queue_step g m times s htie hlate).1).1
+
 /-! ### Whole runs: as many rows as volume entries, and that many time points were reached -/
 
 /-- any property preserved by one iteration holds for whatever state the loop returns. -/
